@@ -8,6 +8,7 @@ shifts of single atoms) on every generated system.
 import os
 
 import numpy as np
+from ase import Atoms
 
 from harness import env
 from monitors import core, geom
@@ -73,7 +74,42 @@ def resolve_radii(radii, numbers):
     return np.asarray(radii, float)
 
 
-def judge_call(rec, system, threshold, radii, result, return_clusters, context, presentation="base"):
+def make_exact_system(rng):
+    """Exact-boundary members: every coordinate, radius and the threshold are small dyadic rationals, the cell is
+    axis-aligned with power-of-two lengths, and nearest neighbours sit EXACTLY at distance - r_i - r_j == threshold
+    (the statement says <=).  Only arrangements whose deciding distances are computed without rounding are generated:
+    bonds along non-periodic axes between atoms that agree in every periodic coordinate, and a single atom bonded to
+    its own images (the library wraps periodic coordinates through a fractional round trip, so other exact-boundary
+    pairs are decided by rounding noise: those stay out of domain as `ill_conditioned_threshold`)."""
+    r, thr = [(0.5, 1.0), (0.75, 0.5), (1.0, 2.0), (0.5, 0.5), (0.25, 1.5), (0.75, 1.0)][int(rng.integers(6))]
+    s = 2 * r + thr
+    pbc = np.array(cells.PBCS[int(rng.integers(8))])
+    if rng.random() < 0.3 and pbc.any():
+        # one atom, periodic cell lengths exactly 2r + thr (or twice that: not bonded)
+        L = [s * int(rng.choice([1, 1, 2])) if pbc[i] else 4.0 for i in range(3)]
+        atoms = Atoms(numbers=[6], positions=[[0.5, 0.5, 0.5]], cell=np.diag(L), pbc=pbc)
+        return atoms, thr, np.array([r]), "self_image"
+    N = [i for i in range(3) if not pbc[i]]
+    if not N:
+        pbc[int(rng.integers(3))] = False
+        N = [i for i in range(3) if not pbc[i]]
+    counts = [int(rng.integers(1, 4)) if i in N else 1 for i in range(3)]
+    if np.prod(counts) == 1:
+        counts[N[0]] = 2
+    L = [16.0 if pbc[i] else max(4.0, 2.0 ** np.ceil(np.log2(counts[i] * s + 1))) for i in range(3)]
+    pos = []
+    for ix in range(counts[0]):
+        for iy in range(counts[1]):
+            for iz in range(counts[2]):
+                pos.append([0.5 + ix * s, 0.5 + iy * s, 0.5 + iz * s])
+    pos = np.array(pos)
+    if rng.random() < 0.4 and len(pos) > 2:            # knock one site out: components / rank change
+        pos = np.delete(pos, int(rng.integers(len(pos))), axis=0)
+    atoms = Atoms(numbers=[6] * len(pos), positions=pos, cell=np.diag(L), pbc=pbc)
+    return atoms, thr, np.full(len(pos), r), "exact_grid"
+
+
+def judge_call(rec, system, threshold, radii, result, return_clusters, context, presentation="base", exact=False):
     """Compares one get_dimensionality result with the oracle.  Returns the oracle info (or None if not judged)."""
     rec.call(NAME)
     lane = _state["lane"]
@@ -88,9 +124,11 @@ def judge_call(rec, system, threshold, radii, result, return_clusters, context, 
     if P and np.linalg.matrix_rank(cell[P]) < len(P):
         rec.ood(NAME); return None
     try:
-        exp, info = prank.expected_dimensionality(pos, cell, pbc, rr, threshold)
+        exp, info = prank.expected_dimensionality(pos, cell, pbc, rr, threshold, band=0.0 if exact else 1e-9)
     except OverflowError:
         rec.ood(NAME); return None
+    if exact:
+        rec.note("exact_boundary_systems_judged")
     if info["borderline"]:
         rec.note("ill_conditioned_threshold"); rec.ood(NAME); return None
     if info["rank_z"] != info["rank_gf2"] and info["n_components"] == 1:
@@ -260,7 +298,11 @@ def run_direct(case, rec):
     keys, n_exec, sample = set(), 0, None
     classes = {"shape": [], "cell_kind": [], "pbc": [], "expected": [], "radii": [], "presentation": []}
     for it in range(case["n"]):
-        if rng.random() < 0.12:
+        exact = False
+        if rng.random() < 0.10:
+            atoms, thr, exact_radii, shape = make_exact_system(rng)
+            kind, n, rmode, exact = "orthogonal", len(atoms), "custom", True
+        elif rng.random() < 0.12:
             atoms, thr = make_impurity_system(rng)
             shape, kind = "impurity", "orthogonal"
             n = len(atoms)
@@ -271,13 +313,18 @@ def run_direct(case, rec):
             thr = float(rng.uniform(0.3, 3.5)) if rng.random() < 0.6 else float(rng.uniform(0.3, 1.0))
             rmode = ["covalent", "vdw", "custom"][int(rng.integers(3))]
         radii = rmode if rmode != "custom" else rng.uniform(0.3, 1.8, size=n)
+        if exact:
+            radii = exact_radii
         rr = resolve_radii(radii, atoms.get_atomic_numbers())
         cutoff = thr + 2 * rr.max()
         h = omic.heights(atoms.get_cell().array, atoms.get_pbc())
         nimg = np.prod([2 * int(np.ceil(cutoff / h[i])) + 1 if atoms.pbc[i] else 1 for i in range(3)])
         if nimg * n * (2 ** int(atoms.pbc.sum())) > 150000:
             continue
-        pres = [("base", atoms, None)] + variants(rng, atoms)
+        pres = [("base", atoms, None)] + ([] if exact else variants(rng, atoms))
+        if exact:        # exactness survives a permutation and nothing else
+            perm = rng.permutation(n)
+            pres.append(("permutation", atoms[[int(i) for i in perm]], perm))
         base_dim = None
         for pname, sysm, aux in pres:
             rad = radii
@@ -297,7 +344,7 @@ def run_direct(case, rec):
                                                      presentation=pname))
                 continue
             n_exec += 1
-            info = judge_call(rec, sysm, thr, rad, res, rc, "direct", pname)
+            info = judge_call(rec, sysm, thr, rad, res, rc, "direct", pname, exact=exact)
             dim = res[0] if rc else res
             if pname == "base":
                 base_dim = dim
